@@ -155,6 +155,13 @@ open Mouette.Dijkstra (upd)
 """
 
 
+
+def _stub(name, ns, sites):
+    """a translation site failed: do not leave the file of an EARLIER tree on disk; the stub has no definitions, so every bridge
+    that needs them fails to build and the build log talks about THIS tree"""
+    bad = "; ".join(f"{s['site']}: {str(s.get('detail'))[:160]}" for s in sites if not s["ok"]).replace("-/", "- /")
+    T.write_generated(name, f"/- TRANSLATION FAILED on the current source tree, no definitions emitted.\n{bad}\n-/\nnamespace {ns}\nend {ns}\n")
+
 def translate():
     sites, out = [], {}
 
@@ -195,4 +202,6 @@ def translate():
         for tag in files: body += out["resets_" + tag]
         body += out["avoid"]
         T.write_generated("C10Loop", "\n".join(body) + "\nend Mouette.Generated.C10\n", HEADER)
+    else:
+        _stub("C10Loop", "Mouette.Generated.C10", sites)
     return sites
